@@ -43,6 +43,9 @@ CLAIMED = {
  "C08": ("Contracts on the standard order: Integer/Float/Atom/Variable.Compare return -1/0/1, order another type by the rank Var < Float < Integer < Atom < other atomic < Compound and the same type by the mathematical difference (no overflow), the IEEE order, the text order (strings.Compare), the variable number; each compares the resolved term; CompareCompound orders by arity, then name, then the first argument whose comparison is non-zero (loop invariant: all earlier arguments compare equal), 0 exactly when all compare equal; keysort/2 goes through sort.SliceStable.",
          "Fragment: the order laws themselves (antisymmetry, transitivity, totality over compounds) follow from these clauses by induction over terms, which is not mechanised; sort/2's and setof/3's sort+dedupe (Env.set) and representation independence for partial/char/code lists are not decided. Term.Compare and Compound.Arity/Functor/Arg are deterministic abstract functions that the concrete methods define (assumed, listed); Env.Resolve is trusted.",
          "contract-based deductive verification: WP over go/ssa with interface-level abstract functions and loop invariants; SMT", "DESIGN.md 5 C08"),
+ "C09": ("Contracts on one update step: the deletion step of retract/1 removes at most one clause and exactly the clause whose stored term is the one it unified with (found by identity at deletion time; no index can leave the clause list), assertz/asserta's merge functions put the new clauses after/before the existing ones with every clause keeping its term and code in order, assertMerge merges exactly the compiled clauses and changes no procedure when it fails, and the alternatives of a call hold their own copy of each clause (census on the captured variable) - the mechanism of the logical update view.",
+         "Fragment: that every history of updates and open calls equals the sequential reference model is a statement about answer sequences (C01's obstacle) and is not decided; retractall/abolish are not under contract. Trusted: compile, piArg, id, Env.Unify; assumed: assertMerge's callbacks keep the procedure table.",
+         "contract-based deductive verification: WP over go/ssa with slice-of-struct heap model, closures as functions, structural census", "DESIGN.md 5 C09"),
 }
 
 NA_REASON = {
